@@ -348,8 +348,8 @@ def pinnedStore : List Use := [
   ⟨"storage.State.DiscardTxSession", "b0dd7d580d62"⟩,
   ⟨"storage.State.Exists", "3afc44af29cb"⟩,
   ⟨"storage.State.Get", "aabe050b413b"⟩,
-  ⟨"storage.State.Iterate", "6bbd25713174"⟩,
-  ⟨"storage.State.IterateRange", "f4a6782b4506"⟩,
+  ⟨"storage.State.Iterate", "fc4a0187a7f4"⟩,
+  ⟨"storage.State.IterateRange", "0662e131e08a"⟩,
   ⟨"storage.State.Set", "8cf5d915c17d"⟩,
   ⟨"storage.State.Write", "b9b8658c4407"⟩,
   ⟨"storage.State.deleted", "28ea826de789"⟩,
